@@ -36,7 +36,9 @@ Sign(dir, pdf) == IF dir = "in" \/ (pdf = "future" /\ dir # "ago") THEN 1 ELSE -
 \* Non-integer years / months make dateutil raise ValueError -> None.
 \* Sub-day units: whole seconds and microseconds of num/den units of U seconds.
 WholeSecs(q, U) == (q[1] * U) \div q[2]
-RemMicros(q, U) == (((q[1] * U) % q[2]) * 1000000) \div q[2]
+\* floor(rem * 10^6 / den) for 0 <= rem < den <= 10^6, without leaving TLC's 32-bit integers
+ScaleMicros(rem, den) == LET a == rem * 1000 IN (a \div den) * 1000 + ((a % den) * 1000) \div den
+RemMicros(q, U) == ScaleMicros((q[1] * U) % q[2], q[2])
 
 Apply(now, terms, sg) ==
   LET yq == Cnt(terms, "year")  dq == Cnt(terms, "decade")  mq == Cnt(terms, "month")
